@@ -24,6 +24,7 @@ func ruleC15(w *World, r *Report) {
 	r.Explanation = "R15.1 pool purity: every value handed to a release function of a pool has the provenance 'allocated from that pool' (directly, or through the meter-cell fields under the meter-type arm of the same kind; for counters the released field path equals the path the allocation was stored to); R15.2 releases in sendDelete are dominated by the success edge of the DELETE write that removes the referencing entries; " +
 		"R15.3 release-on-error closures release only what this call allocated (the !exists guard) and shared maps are updated only after the write succeeded; R15.4 every P4Runtime write reachable from create/update has its error flow to the function's error result (success unreachable unless err == nil), the per-update status filter rejects on the first status that is neither OK nor ALREADY_EXISTS and on an empty status list, SendMsgToUPF maps every error to a rejected cause; R15.5 references and pools a live session holds are only given up where the session's entries are deleted: the application-reference release runs only under the DELETE method, and the connection object whose absence makes tryConnect refill all pools (up4.p4client) is only ever assigned a successfully created client."
 	r.Explanation += " Release sites reached through a function value (release := up4.releaseApp…; if … { release = up4.releaseSession… }) are resolved per selecting edge, edges decided by the fields of a local meter literal are folded, and a meter literal's own meterType names the pool of its cells."
+	r.Explanation += " R15.6 in sendCreate the error of resetCounter/allocateCounterID is tested before the loop goes round; R15.7 sendUpdate reaches no meter/counter cell release before modifyUP4ForwardingConfiguration returned nil."
 	r.NotDecided = "multi-fault sequences as such (the rules are per site and independent of which write fails); that the switch's state matches after partial batches"
 	up := func(n string) *ssa.Function { return w.Fn(P, "pfcpiface.(*UP4)."+n) }
 
